@@ -431,7 +431,7 @@ func (fr *frame) applySpec(spec *FuncSpec, name string, pnames []string, args []
 		} else if fn := f.e.funcsByName[name]; fn != nil && !f.e.mayClose(fn) {
 			st.heap.keep = map[string]bool{"G.chan.closed": true}
 		}
-		st.heap.inclStable = spec.ModAll && len(spec.Modifies) == 0 && !spec.Extern // library functions know nothing of the ghost model; "modifies *" alone: everything; with a list: everything but only the listed stable ghosts
+		st.heap.inclStable = spec.ModAll && len(spec.Modifies) == 0 && !spec.Extern && !spec.Trusted // library functions know nothing of the ghost model; "modifies *" alone: everything; with a list: everything but only the listed stable ghosts
 		st.heap.keepPrivate = !fr.calleeIsWriter(name)
 		if st.heap.keepPrivate {
 			fr.keepOwnedChannels(pre, st)
